@@ -713,6 +713,17 @@ func runC09(c *Ctx) {
 			for _, l := range guardsOf(b) {
 				if op, x, y, ok := l.cmp(); ok {
 					out[cmpString(op, exprString(x, nil, 0), exprString(y, nil, 0))] = true
+					// the same comparison with the buffer's own one-expression accessors (Reserved(), WriteLen(), ...)
+					// spelled out from their bodies on this tree
+					if xs, ys := getterSpelledOut(x), getterSpelledOut(y); xs != "" || ys != "" {
+						if xs == "" {
+							xs = exprString(x, nil, 0)
+						}
+						if ys == "" {
+							ys = exprString(y, nil, 0)
+						}
+						out[cmpString(op, xs, ys)] = true
+					}
 				}
 			}
 			return out
@@ -1012,4 +1023,47 @@ func sortedSum(a, b string) string {
 		a, b = b, a
 	}
 	return a + "+" + b
+}
+
+// getterSpelledOut: v is a call of a parameterless single-block method on the enclosing function's receiver whose body
+// is one arithmetic expression over the receiver's fields, built-in len/cap and constants: that expression rendered
+// canonically (read from the body on the analysed tree, so a changed accessor changes the string); "" otherwise.
+func getterSpelledOut(v ssa.Value) string {
+	call, ok := stripConv(v).(*ssa.Call)
+	if !ok {
+		return ""
+	}
+	h := call.Call.StaticCallee()
+	if h == nil || h.Blocks == nil || len(h.Blocks) != 1 || h.Signature.Recv() == nil || len(h.Params) != 1 || len(call.Call.Args) != 1 {
+		return ""
+	}
+	if _, isPrm := stripConv(call.Call.Args[0]).(*ssa.Parameter); !isPrm {
+		return ""
+	}
+	var res ssa.Value
+	for _, in := range h.Blocks[0].Instrs {
+		switch x := in.(type) {
+		case *ssa.FieldAddr, *ssa.BinOp, *ssa.Convert, *ssa.ChangeType, *ssa.DebugRef:
+		case *ssa.UnOp:
+			if x.Op != token.MUL && x.Op != token.SUB {
+				return ""
+			}
+		case *ssa.Call:
+			b, isB := x.Call.Value.(*ssa.Builtin)
+			if !isB || (b.Name() != "len" && b.Name() != "cap") {
+				return ""
+			}
+		case *ssa.Return:
+			if len(x.Results) != 1 {
+				return ""
+			}
+			res = x.Results[0]
+		default:
+			return ""
+		}
+	}
+	if res == nil {
+		return ""
+	}
+	return exprString(res, nil, 0)
 }
